@@ -34,7 +34,7 @@ static double normOf(const std::vector<double>& e, bool inf) {
 static std::string modelTypes(const ModelDesc& d) { return d.shortStr(); }
 
 // ======================================================================== C09
-struct Norms { double perr = 0, quat = 0, pverr = 0; int mHolo = 0, mQuat = 0, mPV = 0; bool finite = true; };
+struct Norms { double perr = 0, quat = 0, pverr = 0; double rawPerr = 0, rawPverr = 0; int mHolo = 0, mQuat = 0, mPV = 0; bool finite = true; };
 
 // Recompute the documented norms from a *fresh copy* of the state (all cache invalidated).
 static Norms recomputeNorms(const Built& B, const State& s, bool inf, bool wantVel) {
@@ -46,6 +46,7 @@ static Norms recomputeNorms(const Built& B, const State& s, bool inf, bool wantV
     const Vector& qe = f.getQErr(); const Vector& qw = f.getQErrWeights();
     std::vector<double> e; for (int i = 0; i < n.mHolo; ++i) e.push_back(qe[i] * qw[i]);
     n.perr = normOf(e, inf);
+    e.clear(); for (int i = 0; i < n.mHolo; ++i) e.push_back(qe[i]); n.rawPerr = normOf(e, inf);   // unweighted (only used to place window cases)
     // quaternion lengths straight from q
     e.clear();
     for (size_t k = 0; k < B.m.bodies.size(); ++k) {
@@ -58,6 +59,7 @@ static Norms recomputeNorms(const Built& B, const State& s, bool inf, bool wantV
         const Vector& ue = f.getUErr(); const Vector& uw = f.getUErrWeights(); n.mPV = ue.size();
         e.clear(); for (int i = 0; i < ue.size(); ++i) e.push_back(ue[i] * uw[i]);
         n.pverr = normOf(e, inf);
+        e.clear(); for (int i = 0; i < ue.size(); ++i) e.push_back(ue[i]); n.rawPverr = normOf(e, inf);
     }
     n.finite = allFinite(f.getQ()) && allFinite(f.getU()) && std::isfinite(n.perr) && std::isfinite(n.quat) && std::isfinite(n.pverr);
     return n;
@@ -70,11 +72,13 @@ static void checkC09(Ctx& c, long idx, Rng& r) {
     const bool adv = api <= 1, doQ = (api == 0 || api == 2 || api == 3), doU = (api == 1 || api == 2 || api == 4);
     const unsigned optMask = adv ? (unsigned)((idx / 5) % 32) : 0u;
     const bool linearOnly = (idx % 7 == 3);
-    // scenario: 0 already satisfied, 1 tiny, 2 small, 3 medium, 4 unsatisfiable
-    int scen; { double x = r.uni(); scen = x < 0.15 ? 0 : x < 0.35 ? 1 : x < 0.65 ? 2 : x < 0.90 ? 3 : 4; }
+    // scenario: 0 already satisfied, 1 tiny, 2 small, 3 medium, 4 unsatisfiable,
+    // 5 "window": entry error placed between the raw and the documented weighted norm around the accuracy
+    int scen; { double x = r.uni(); const double pw = (adv && !(optMask & ProjectOptions::ForceProjection)) ? 0.45 : 0.25;   // window share
+                if (x >= 1 - pw) scen = 5; else { double y = x / (1 - pw); scen = y < 0.17 ? 0 : y < 0.38 ? 1 : y < 0.66 ? 2 : y < 0.88 ? 3 : 4; } }
     if (c.args.getInt("scen", -1) >= 0) scen = (int)c.args.getInt("scen", -1);      // exploration aid: --scen 4 --unsat 2
     bool hasPres = r.coin(0.4);
-    const bool unnormQuat = doQ && r.coin(0.5);
+    bool unnormQuat = doQ && r.coin(0.5);
 
     c.setPhase("generate");
     GenOpts go; go.maxBodies = 5; go.pLoneParticle = 0.02;
@@ -125,7 +129,7 @@ static void checkC09(Ctx& c, long idx, Rng& r) {
         if (cs.type == CT_Rod) { cs.val = (X1 * cs.p1 - X2 * cs.p2).norm(); if (cs.val < 0.25) { cs.p1 += Vec3(1, 0, 0); cs.val = (X1 * cs.p1 - X2 * cs.p2).norm(); } }
         else if (cs.type == CT_Ball) cs.p2 = ~X2 * (X1 * cs.p1);
         else { cs.n1 = Vec3(randUnit(r)); cs.val = dot(cs.n1, ~X1 * (X2 * cs.p2)); }
-        cons.push_back(cs); if (scen == 4) scen = 2;
+        cons.push_back(cs); if (scen >= 4) scen = 2;
     } else
     for (int i = 0; i < nc; ++i) { ConSpec cs; if (genConstraint(r, A, a, co, cs)) cons.push_back(cs); }
     if (cons.empty()) { c.skip("no-constraint-placed"); return; }
@@ -172,29 +176,60 @@ static void checkC09(Ctx& c, long idx, Rng& r) {
     const bool inf = (optMask & ProjectOptions::UseInfinityNorm) != 0;
     const bool force = (optMask & ProjectOptions::ForceProjection) != 0;
     const bool dontThrow = (optMask & ProjectOptions::DontThrow) != 0;
-    if (r.coin(0.7)) {
+    // weights: non-unit in 85% of the cases, very different per constraint equation (documented norm is the weighted one)
+    if (r.coin(0.85) || scen == 5) {
         Vector& uw = s0.updUWeights(); for (int i = 0; i < uw.size(); ++i) uw[i] = r.logUni(0.1, 10);
-        Vector& qw = s0.updQErrWeights(); for (int i = 0; i < qw.size(); ++i) qw[i] = r.logUni(0.1, 10);
-        Vector& ew = s0.updUErrWeights(); for (int i = 0; i < ew.size(); ++i) ew[i] = r.logUni(0.1, 10);
+        Vector& qw = s0.updQErrWeights(); for (int i = 0; i < qw.size(); ++i) qw[i] = r.logUni(0.02, 50);
+        Vector& ew = s0.updUErrWeights(); for (int i = 0; i < ew.size(); ++i) ew[i] = r.logUni(0.02, 50);
     }
-    const double acc = r.logUni(1e-10, 1e-3);
+    const double acc = scen == 5 ? r.logUni(1e-8, 1e-4) : r.logUni(1e-10, 1e-3);
     ProjectOptions opts(acc);
     for (unsigned b = 1; b <= 0x10; b <<= 1) if (optMask & b) opts.setOption((ProjectOptions::Option)b);
     int overshootClass = r.integer(0, 2); if (adv && overshootClass) opts.setOvershootFactor(overshootClass == 1 ? 1.0 : 0.01);
-    bool useLimit = adv && r.coin(0.1); double limit = r.logUni(1e-6, 1e-1); if (useLimit) opts.setProjectionLimit(limit);
+    bool useLimit = adv && scen != 5 && r.coin(0.1); double limit = r.logUni(1e-6, 1e-1); if (useLimit) opts.setProjectionLimit(limit);
     bool withErrEst = adv && r.coin(0.3);
     wit.set("accuracy", acc).set("useLimit", useLimit).set("unsat", unsatKind);
 
     // perturb
     c.setPhase("perturb");
     State s = s0;
-    const double delta = scen == 0 ? 0.0 : scen == 1 ? r.logUni(1e-8, 1e-6) : scen == 2 ? r.logUni(1e-6, 1e-3) : scen == 3 ? r.logUni(1e-3, 1e-1) : (r.coin() ? r.logUni(1e-6, 1e-2) : r.logUni(0.1, 3.0));   // unsatisfiable sets are also started far away (Newton may thrash)
+    double delta = scen == 0 ? 0.0 : scen == 1 ? r.logUni(1e-8, 1e-6) : scen == 2 ? r.logUni(1e-6, 1e-3) : scen == 3 ? r.logUni(1e-3, 1e-1) : (r.coin() ? r.logUni(1e-6, 1e-2) : r.logUni(0.1, 3.0));   // unsatisfiable sets are also started far away (Newton may thrash)
     sys.realize(s, Stage::Instance);
     std::vector<char> freeQ(s.getNQ(), 0), freeU(s.getNU(), 0);
     for (QIndex qx : matter.getFreeQIndex(s)) freeQ[qx] = 1;
     for (UIndex ux : matter.getFreeUIndex(s)) freeU[ux] = 1;
     std::vector<char> inUseQ(s.getNQ(), 0);   // Euler mode leaves the 4th quaternion slot allocated but unused
     for (size_t k = 0; k < B.m.bodies.size(); ++k) { int q0 = B.m.bodies[k].getFirstQIndex(s), n = B.m.bodies[k].getNumQ(s); for (int i = 0; i < n; ++i) inUseQ[q0 + i] = 1; }
+    // window class: a direction on the free variables is scaled so that the *weighted* entry norm is acc*f with f chosen
+    // relative to rho = weighted/raw: inside the window (raw and weighted norm on different sides of the accuracy),
+    // or just inside / just outside the accuracy. Error is linear in the (tiny) step, so one trial step calibrates it.
+    std::string windowCls; const bool winQ = doQ;   // project-simple: place the position error
+    if (scen == 5) {
+        c.setPhase("place window case");
+        Vector dirQ(s.getNQ(), 0.0), dirU(s.getNU(), 0.0);
+        if (winQ) {
+            for (int i = 0; i < dirQ.size(); ++i) if (inUseQ[i] && freeQ[i]) dirQ[i] = r.normal();
+            for (size_t k = 0; k < B.m.bodies.size(); ++k) {     // stay tangent to the quaternion spheres
+                const MobilizedBody& mb = B.m.bodies[k]; if (!matter.isUsingQuaternion(s, mb.getMobilizedBodyIndex())) continue;
+                int q0 = mb.getFirstQIndex(s); double dd = 0, nn2 = 0; for (int i = 0; i < 4; ++i) { dd += dirQ[q0 + i] * s.getQ()[q0 + i]; nn2 += s.getQ()[q0 + i] * s.getQ()[q0 + i]; }
+                for (int i = 0; i < 4; ++i) dirQ[q0 + i] -= dd / nn2 * s.getQ()[q0 + i];
+            }
+        } else for (int i = 0; i < dirU.size(); ++i) if (freeU[i]) dirU[i] = r.normal();
+        const double d0 = 1e-6; double r0 = 0, w0 = 0;
+        try { State tr = s0; if (winQ) tr.updQ() += d0 * dirQ; else tr.updU() += d0 * dirU; Norms nt = recomputeNorms(B, tr, inf, true); r0 = winQ ? nt.rawPerr : nt.rawPverr; w0 = winQ ? nt.perr : nt.pverr; }
+        catch (const std::exception&) { r0 = w0 = 0; }
+        if (!(r0 > 1e-10 && w0 > 1e-10) || !(std::fabs(std::log(w0 / r0)) > 0.1)) { c.obs("window-not-constructible"); scen = 2; }
+        else {
+            const double rho = w0 / r0; double f; int pick = r.integer(0, 9);
+            if (pick <= 6) f = std::pow(rho, r.uni(0.15, 0.85));        // raw and weighted norm on different sides of acc
+            else if (pick == 7) f = r.uni(0.80, 0.97);                  // just inside the accuracy (weighted)
+            else if (pick == 8) f = r.uni(1.03, 1.25);                  // just outside
+            else f = std::pow(rho, -r.uni(0.15, 0.85));                 // beyond the window on the other side
+            delta = d0 * acc * f / w0; unnormQuat = false;
+            if (winQ) s.updQ() += delta * dirQ; else s.updU() += delta * dirU;
+        }
+    }
+    if (scen != 5) {
     if (doQ) {
         Vector& q = s.updQ();
         for (int i = 0; i < q.size(); ++i) if (inUseQ[i] && (freeQ[i] || !adv)) q[i] += delta * r.normal();
@@ -205,6 +240,7 @@ static void checkC09(Ctx& c, long idx, Rng& r) {
         }
     }
     if (doU) { Vector& u = s.updU(); for (int i = 0; i < u.size(); ++i) if (freeU[i] || !adv) u[i] += delta * r.normal(); }
+    }
     if (adv) sys.realize(s, api == 0 ? Stage::Position : Stage::Velocity);
     const Vector qIn = s.getQ(), uIn = s.getU();
     Norms nIn; Matrix PqIn, GIn; bool NisI = true; double jacMax = -1;   // max |entry| of the constraint Jacobian on the free variables
@@ -219,6 +255,12 @@ static void checkC09(Ctx& c, long idx, Rng& r) {
         if (api == 1) { matter.calcG(s, GIn); if (nIn.mPV > 0) { jacMax = 0; for (int j = 0; j < nIn.mPV; ++j) for (int i = 0; i < GIn.ncol(); ++i) if (freeU[i]) jacMax = std::max(jacMax, std::fabs(GIn(j, i))); } }
     } catch (const std::exception& e) { c.skip("input-state-not-realizable"); return; }
     if (!nIn.finite) { c.skip("nonfinite-input"); return; }
+    if (scen == 5) {   // classify from the norms actually realised
+        double raw = winQ ? nIn.rawPerr : nIn.rawPverr, wtd = winQ ? nIn.perr : nIn.pverr;
+        bool rawIn = raw <= acc, wIn = wtd <= acc;
+        windowCls = (rawIn && !wIn) ? "raw-in_weighted-out" : (!rawIn && wIn) ? "raw-out_weighted-in" : (rawIn && wIn) ? "both-in" : "both-out";
+        wit.set("window", windowCls).set("rawNormIn", raw).set("weightedNormIn", wtd);
+    }
     const bool degenerate = adv && jacMax >= 0 && jacMax < 1e-9;   // structurally zero Jacobian (only rounding noise)
     wit.set("jacobianMaxAbs", jacMax).set("delta", delta).set("normIn_perr", nIn.perr).set("normIn_quat", nIn.quat).set("normIn_pverr", nIn.pverr).set("qIn", jV(qIn)).set("uIn", jV(uIn));
     auto W = [&](const char* what) { Json w = wit; return [w, what]() { Json x = w; x.set("what", what); return x; }; };
@@ -367,6 +409,7 @@ static void checkC09(Ctx& c, long idx, Rng& r) {
     char ck[256]; snprintf(ck, sizeof ck, "%s/opt%02x/%s/%s/%s/scen%d", apiName(api), optMask, outcome.c_str(), matter.getNumQuaternionsInUse(s) ? "quat" : "noquat", nPres ? "pres" : "nopres", scen);
     c.cover(ck);
     c.cover("constraints/" + ckey + (anyNonholo ? "" : ""));
+    if (scen == 5) c.cover(std::string("window/") + apiName(api) + (inf ? "/inf/" : "/rms/") + (winQ ? "perr/" : "pverr/") + windowCls + (force ? "/forced/" : "/unforced/") + outcome);
     if (c.wantSample()) c.sample(Json::obj().set("model", modelTypes(d)).set("constraints", ckey).set("api", apiName(api)).set("optMask", (int)optMask).set("accuracy", acc).set("delta", delta).set("outcome", outcome).set("normIn", std::max(nIn.perr, nIn.pverr)));
 }
 
